@@ -76,6 +76,12 @@ func retainFilters(c *core.Ctx, f *ssa.Function, instances, tokField *types.Var)
 				seenAppend[ap] = true
 				vals := appendedValues(ap)
 				if len(vals) == 0 {
+					// append(dst, src...) of a whole (sub-)slice: entries are kept by position, not by a test
+					if len(ap.Call.Args) == 2 {
+						if _, isSl := ssax.Strip(ap.Call.Args[1]).(*ssa.Slice); isSl {
+							out = append(out, retainFilter{at: ap, detail: "the retained entries are the sub-slice " + ssax.Path(ap.Call.Args[1]) + ": which instance is dropped depends on its position, not on which token expired (tokens need not expire in the order they were issued)"})
+						}
+					}
 					continue
 				}
 				r := retainFilter{at: ap, detail: "append-back is not guarded by an inequality of the entry and the expiring instance (identity or securityTokenID)"}
@@ -269,14 +275,30 @@ func c17(c *core.Ctx) {
 		if len(fl) == 0 {
 			// the table must at least be rewritten (a removal) after the timer
 			rew := false
+			positional := ""
 			for _, g := range withHelpers(f) {
 				for _, s := range ssax.ContainerSites(g, instances) {
 					if s.Kind == ssax.MapStore || s.Kind == ssax.MapDelete {
 						rew = true
 					}
+					// table[k] = old[i:j]: entries are dropped by position, whichever instance expired
+					if s.Kind == ssax.MapStore {
+						if sl, isSl := ssax.Strip(s.Val).(*ssa.Slice); isSl {
+							positional = ssax.Path(sl) + " at " + pos(c, s.Instr)
+						}
+					}
 				}
 			}
-			c.Ob("C17.remove", fname(f)+"·retain-filter", c.P.Pos(f.Pos()), rew, "no append-back loop; table rewritten/deleted: "+boolStr(rew))
+			if positional != "" {
+				c.Ob("C17.remove", fname(f)+"·retain-filter", c.P.Pos(f.Pos()), false, "the table entry is replaced by the sub-slice "+positional+": which instance is dropped depends on its position, not on which token expired (tokens need not expire in the order they were issued)")
+				rew = false
+				positional = "reported"
+			}
+			if positional == "reported" {
+				// already reported
+			} else {
+				c.Ob("C17.remove", fname(f)+"·retain-filter", c.P.Pos(f.Pos()), rew, "no append-back loop; table rewritten/deleted: "+boolStr(rew))
+			}
 		}
 	}
 
